@@ -1010,6 +1010,20 @@ pub fn gen_model_sym(r: &mut Rng, cfg: &GenCfg) -> Model {
         let mut vars: Vec<usize> = (0..n).collect();
         r.shuffle(&mut vars);
         let positive = !r.chance(1, 4);
+        if r.chance(1, 3) {
+            // bound literals with different thresholds: the reasons of conflicts then mention weaker
+            // bounds than the ones an equality decision has put on the trail
+            m.cons.push(Cons::Clause(
+                vars[..k.min(n)]
+                    .iter()
+                    .map(|&x| {
+                        let t = r.i32(lo, lo + width);
+                        if r.chance(1, 2) { Atom::Le(x, t) } else { Atom::Ge(x, t) }
+                    })
+                    .collect(),
+            ));
+            continue;
+        }
         m.cons.push(Cons::Clause(
             vars[..k.min(n)].iter().map(|&x| if positive { Atom::Eq(x, v) } else { Atom::Ne(x, v) }).collect(),
         ));
@@ -1023,6 +1037,18 @@ pub fn gen_model_sym(r: &mut Rng, cfg: &GenCfg) -> Model {
         }
         2 => m.cons.push(Cons::LinNe(vec![id(0), View { scale: -1, offset: 0, var: n - 1 }], 0)),
         _ => {}
+    }
+    // a disequality over three or more terms with a non-zero right-hand side: its incremental state
+    // (number of fixed terms, sum of the fixed part) goes through many fix / unfix cycles before the
+    // constraint first becomes active, because the clauses above cause conflicts earlier
+    if r.chance(1, 2) {
+        let k = 3.min(n) + r.usize(n + 1 - 3.min(n));
+        let mut vars: Vec<usize> = (0..n).collect();
+        r.shuffle(&mut vars);
+        let ts: Vec<View> = vars[..k].iter().map(|&x| View { scale: *r.pick(&[1, 1, 1, -1, 2]), offset: 0, var: x }).collect();
+        let lo_sum: i64 = ts.iter().map(|t| if t.scale > 0 { t.scale as i64 * lo as i64 } else { t.scale as i64 * (lo + width) as i64 }).sum();
+        let c = (lo_sum + r.range(1, (width as i64) * 2)) as i32;
+        m.cons.push(Cons::LinNe(ts, c));
     }
     m
 }
